@@ -351,7 +351,7 @@ Close Scope string_scope.
 
 (* ---- cases ------------------------------------------------------------------------ *)
 Definition mk_bs (i g : Z) (srcs : list Z) (m : mstate) (d : dstate) (n : nstate) : bstate :=
-  mk_bstate (mk_blk i g srcs) m d n.
+  mk_bstate (mk_blk i g srcs 1) m d n.
 
 Definition no_faults : faults := fun _ => false.
 
